@@ -76,6 +76,110 @@ theorem h5SetItem_ok (A B : DArr) (ix : IndexArg) (ixs : List Ix) (d : Arr)
 
 theorem fullSlice_plain : plainItems fullSlice.items = some [Ix.slice none none none] := rfl
 
+/-- a write that raised nothing passed the empty-source guard and is h5py's `dataset[ix] = data` -/
+theorem writeData_ok {A B : DArr} {d : Arr} {ix : IndexArg} (h : writeData A d ix = .ok B) :
+    h5SetItem A ix.orFull d = .ok B := by
+  unfold writeData at h
+  split at h
+  · cases h
+  · cases ix <;> exact h
+
+theorem writeData_of_h5 {A B : DArr} {d : Arr} {ix : IndexArg}
+    (hg : (arrIsEmpty d && optTruthy (h5SelectedCount A ix)) = false)
+    (h : h5SetItem A ix.orFull d = .ok B) : writeData A d ix = .ok B := by
+  unfold writeData
+  rw [hg]
+  cases ix <;> exact h
+
+/-! ### the empty-source guard never fires on the writes `create_data_array` and `append` issue -/
+
+theorem npCountPlain_nil : ∀ sh : List Nat, npCountPlain sh [] = some (Nix.Nd.sizeOf sh)
+  | [] => rfl
+  | n :: ns => by simp [npCountPlain, npCountPlain_nil ns, Nix.Nd.sizeOf]
+
+theorem rangeLen_unit (lo hi : Nat) (h : lo ≤ hi) : Nix.Py.rangeLen (lo : Int) (hi : Int) 1 = hi - lo := by
+  unfold Nix.Py.rangeLen
+  have h1 : (1 : Int) > 0 := by omega
+  rw [if_pos h1]
+  by_cases hlt : (lo : Int) < (hi : Int)
+  · rw [if_pos hlt, Int.ediv_one]
+    omega
+  · rw [if_neg hlt]
+    omega
+
+theorem npAxisCount_full (n : Nat) : npAxisCount n (Ix.slice none none none) = some n := by
+  have hidx : (Nix.Py.PySlice.mk none none none).indices n = .ok ((0 : Int), (n : Int), (1 : Int)) := by
+    simp [Nix.Py.PySlice.indices]
+  simp only [npAxisCount, hidx]
+  have := rangeLen_unit 0 n (Nat.zero_le n)
+  simp only [Int.natCast_zero, Nat.sub_zero] at this
+  rw [this]
+
+theorem npAxisCount_window (e o c : Nat) (h : o + c ≤ e) :
+    npAxisCount e (Ix.slice (some (o : Int)) (some ((c : Int) + (o : Int))) none) = some c := by
+  have hidx : (Nix.Py.PySlice.mk (some (o : Int)) (some ((c : Int) + (o : Int))) none).indices e
+      = .ok ((o : Int), ((c + o : Nat) : Int), (1 : Int)) := by
+    have h1 : ¬ ((o : Int) < 0) := by omega
+    have h2 : ¬ ((o : Int) > (e : Int)) := by omega
+    have h3 : ¬ ((c : Int) + (o : Int) < 0) := by omega
+    have h4 : ¬ ((c : Int) + (o : Int) > (e : Int)) := by omega
+    simp [Nix.Py.PySlice.indices, Nix.Py.clampBound, h1, h2, h3, h4]
+  simp only [npAxisCount, hidx]
+  rw [rangeLen_unit o (c + o) (by omega)]
+  congr 1
+  omega
+
+theorem npCountPlain_window : ∀ (e o c : List Nat), Fits e o c →
+    npCountPlain e (appendSlices o c) = some (Nix.Nd.sizeOf c)
+  | [], [], [], _ => rfl
+  | e :: es, o :: os, c :: cs, h => by
+    simp only [Fits] at h
+    simp [appendSlices, npCountPlain, npAxisCount_window e o c h.1, npCountPlain_window es os cs h.2,
+      Nix.Nd.sizeOf]
+  | [], [], _ :: _, h => by simp [Fits] at h
+  | [], _ :: _, _, h => by simp [Fits] at h
+  | _ :: _, [], _, h => by simp [Fits] at h
+  | _ :: _, _ :: _, [], h => by simp [Fits] at h
+
+theorem filterMap_plain : ∀ l : List Ix, (l.map IxE.ix).filterMap ixePlain? = l
+  | [] => rfl
+  | i :: is => by simp [ixePlain?, filterMap_plain is]
+
+theorem npExpand_plain (rank : Nat) (l : List Ix) (h : l.length ≤ rank) : npExpand rank (l.map .ix) = some l := by
+  unfold npExpand
+  simp only [filterMap_plain, List.length_map, Nat.sub_self]
+  have : ¬ (l.length > rank) := by omega
+  simp [this]
+
+theorem length_appendSlices : ∀ (o c : List Nat), o.length = c.length → (appendSlices o c).length = c.length
+  | [], [], _ => rfl
+  | [], _ :: _, h => by simp at h
+  | _ :: _, [], h => by simp at h
+  | o :: os, c :: cs, h => by
+    simp only [List.length_cons, Nat.add_right_cancel_iff] at h
+    simp [appendSlices, length_appendSlices os cs h]
+
+theorem optTruthy_size (n : Nat) : ((n == 0) && optTruthy (some n)) = false := by
+  cases n <;> simp [optTruthy]
+
+theorem guard_window (A : DArr) (d : Arr) (o : List Nat) (h : Fits A.arr.shape o d.a.shape)
+    (hl : o.length = d.a.shape.length) (hr : d.a.shape.length = A.arr.shape.length) :
+    (arrIsEmpty d && optTruthy (h5SelectedCount A (.tuple ((appendSlices o d.a.shape).map .ix)))) = false := by
+  unfold h5SelectedCount arrIsEmpty
+  simp only [IndexArg.items]
+  rw [npExpand_plain _ _ (by rw [length_appendSlices o _ hl, hr]; exact Nat.le_refl _)]
+  simp only [Option.bind, npCountPlain_window _ _ _ h]
+  exact optTruthy_size _
+
+theorem guard_full (A : DArr) (d : Arr) (hs : d.a.shape = A.arr.shape) (hr : A.arr.shape ≠ []) :
+    (arrIsEmpty d && optTruthy (h5SelectedCount A .none)) = false := by
+  unfold h5SelectedCount arrIsEmpty
+  cases hA : A.arr.shape with
+  | nil => exact absurd hA hr
+  | cons n ns =>
+    simp only [npCountPlain, npAxisCount_full, npCountPlain_nil, hs, hA, Nix.Nd.sizeOf]
+    exact optTruthy_size _
+
 /-! ### conversion -/
 
 theorem contiguous_convArr (t : DType) (D : NdArray Elem) :
@@ -328,24 +432,24 @@ theorem stepS_ok (A : DArr) (s : TStep) (s' : Step) (he : s.erase A.dtype = some
     simp only [TStep.erase, Option.some.injEq] at he
     subst he
     have hw := runOf_none hn
-    exact h5SetItem_ok A _ fullSlice _ d fullSlice_plain hw
+    exact h5SetItem_ok A _ fullSlice _ d fullSlice_plain (writeData_ok hw)
   | assign ix d =>
     cases ix with
     | none =>
       simp only [TStep.erase, Option.some.injEq] at he
       subst he
       have hw := runOf_none hn
-      exact h5SetItem_ok A _ fullSlice _ d fullSlice_plain hw
+      exact h5SetItem_ok A _ fullSlice _ d fullSlice_plain (writeData_ok hw)
     | one i =>
       simp only [TStep.erase, Option.map_eq_some_iff] at he
       obtain ⟨ixs, hp, rfl⟩ := he
       have hw := runOf_none hn
-      exact h5SetItem_ok A _ (.one i) ixs d hp hw
+      exact h5SetItem_ok A _ (.one i) ixs d hp (writeData_ok hw)
     | tuple l =>
       simp only [TStep.erase, Option.map_eq_some_iff] at he
       obtain ⟨ixs, hp, rfl⟩ := he
       have hw := runOf_none hn
-      exact h5SetItem_ok A _ (.tuple l) ixs d hp hw
+      exact h5SetItem_ok A _ (.tuple l) ixs d hp (writeData_ok hw)
   | append d axis =>
     simp only [TStep.erase, Option.some.injEq] at he
     subst he
@@ -359,7 +463,7 @@ theorem stepS_ok (A : DArr) (s : TStep) (s' : Step) (he : s.erase A.dtype = some
       · rw [hB]
         have hdt : A1.dtype = A.dtype := (setExtent_meta hA1).1
         have hass := h5SetItem_ok A1 B (.tuple ((appendSlices (appendOffset axis A.arr.shape)
-          (contiguous d.a).shape).map .ix)) _ ⟨d.dt, contiguous d.a⟩ (plainItems_map _) hw
+          (contiguous d.a).shape).map .ix)) _ ⟨d.dt, contiguous d.a⟩ (plainItems_map _) (writeData_ok hw)
         rw [hdt] at hass
         simp only [step]
         unfold append
@@ -442,7 +546,7 @@ theorem stepS_meta (A : DArr) (s : TStep) :
     cases s with
     | write d =>
       have hw := runOf_none hx
-      exact assign_meta (h5SetItem_ok A _ fullSlice _ d fullSlice_plain hw)
+      exact assign_meta (h5SetItem_ok A _ fullSlice _ d fullSlice_plain (writeData_ok hw))
     | assign ix d =>
       have hw := runOf_none hx
       have key : ∀ ix' B, h5SetItem A ix' d = .ok B → B.dtype = A.dtype ∧ B.compressed = A.compressed := by
@@ -456,9 +560,9 @@ theorem stepS_meta (A : DArr) (s : TStep) :
             · cases hh
             · cases hh; exact ⟨rfl, rfl⟩
       cases ix with
-      | none => exact key _ _ hw
-      | one i => exact key _ _ hw
-      | tuple l => exact key _ _ hw
+      | none => exact key _ _ (writeData_ok hw)
+      | one i => exact key _ _ (writeData_ok hw)
+      | tuple l => exact key _ _ (writeData_ok hw)
     | append d axis =>
       simp only [stepS] at hx ⊢
       by_cases hc : A.arr.shape.length = (contiguous d.a).shape.length ∧
@@ -470,7 +574,7 @@ theorem stepS_meta (A : DArr) (s : TStep) :
         · rw [hB]
           have m1 := setExtent_meta hA1
           have hass := h5SetItem_ok A1 B (.tuple ((appendSlices (appendOffset axis A.arr.shape)
-            (contiguous d.a).shape).map .ix)) _ ⟨d.dt, contiguous d.a⟩ (plainItems_map _) hw
+            (contiguous d.a).shape).map .ix)) _ ⟨d.dt, contiguous d.a⟩ (plainItems_map _) (writeData_ok hw)
           have m2 := assign_meta hass
           exact ⟨m2.1.trans m1.1, m2.2.trans m1.2⟩
         · rw [hB] at hx; simp at hx
@@ -529,12 +633,7 @@ theorem h5SetItem_typed {A B : DArr} {ix : IndexArg} {d : Arr} (hA : Typed A) (h
         · exact hA idx hb
 
 theorem writeData_typed {A B : DArr} {ix : IndexArg} {d : Arr} (hA : Typed A) (h : writeData A d ix = .ok B) :
-    Typed B := by
-  unfold writeData at h
-  cases ix with
-  | none => exact h5SetItem_typed hA h
-  | one i => exact h5SetItem_typed hA h
-  | tuple l => exact h5SetItem_typed hA h
+    Typed B := h5SetItem_typed hA (writeData_ok h)
 
 theorem runOf_typed {A : DArr} {x : Except IoErr DArr} (hA : Typed A) (hx : ∀ B, x = .ok B → Typed B) :
     Typed (runOf A x).1 := by
@@ -766,7 +865,8 @@ theorem createS_exact (dtype : Option DType) (shape : Option (List Nat)) (d0 : A
   refine ⟨B, ?_, h1, h2, h3, fun idx hb => h4 idx (h3 ▸ hb)⟩
   unfold createS
   simp only [npAscontiguousarray, hsh, Bool.not_true, Bool.false_eq_true, if_false, htxt]
-  exact h5SetItem_accepts _ B fullSlice _ ⟨d0.dt, contiguous d0.a⟩ fullSlice_plain hk hB
+  exact writeData_of_h5 (guard_full _ ⟨d0.dt, contiguous d0.a⟩ rfl (contiguous_rank d0.a))
+    (h5SetItem_accepts _ B fullSlice _ ⟨d0.dt, contiguous d0.a⟩ fullSlice_plain hk hB)
 
 /-- data of an accepted kind, appended along a valid axis: no exception, and the result is what `append` of the
 converted data gives in the model of `C01_append_concat` -/
@@ -797,11 +897,17 @@ theorem appendS_accepts (A : DArr) (d : Arr) (axis : Int) (hk : convRefusal d.dt
   obtain ⟨Y, hY⟩ : ∃ Y, append A (convArr A.dtype d.a) (k : Int) = .ok Y := ⟨_, happ⟩
   have hass := hY
   rw [hunf] at hass
+  have hA1sh : A1.arr.shape = appendEnlarge (k : Int) A.arr.shape (contiguous d.a).shape := by
+    rw [setExtent_ok_eq hA1]; simp [NdArray.resize, map_toNat_comp]
+  have hlenE := length_appendEnlarge (k : Int) A.arr.shape (contiguous d.a).shape hl
+  have hg := guard_window A1 ⟨d.dt, contiguous d.a⟩ (appendOffset (k : Int) A.arr.shape)
+    (by rw [hA1sh]; exact fits_append k _ _ hl hk' hm) (by rw [length_appendOffset]; exact hl)
+    (by rw [hA1sh, hlenE]; exact hl.symm)
   have hw : writeData A1 ⟨d.dt, contiguous d.a⟩ (.tuple ((appendSlices (appendOffset (k : Int) A.arr.shape)
       (contiguous d.a).shape).map .ix)) = .ok Y :=
-    h5SetItem_accepts A1 Y (.tuple ((appendSlices (appendOffset (k : Int) A.arr.shape)
+    writeData_of_h5 hg (h5SetItem_accepts A1 Y (.tuple ((appendSlices (appendOffset (k : Int) A.arr.shape)
       (contiguous d.a).shape).map .ix)) _ ⟨d.dt, contiguous d.a⟩ (plainItems_map _) (by rw [hdt]; exact hk)
-      (by rw [hdt]; exact hass)
+      (by rw [hdt]; exact hass))
   rcases hcase with ⟨B, hwB, hB⟩ | ⟨e, A2, _, hB⟩
   · rw [hw] at hwB
     cases hwB
